@@ -331,7 +331,9 @@ def chunk_get_rule(R, pfx="C15"):
                     if blk["cleanup"] or t["k"] != "switch" or idx is None:
                         continue
                     on = op_local(t["on"])
-                    if not any(st["d"] == [on] and st["rv"]["k"] == "discr" and st["rv"]["p"][-1] == ".kind" for st in blk["stmts"]):
+                    # `if let RecordKind::Chunk = header.kind` switches on the field; `match header.kind { Chunk => .., other => .. }` may copy it first
+                    if not any(st["d"] == [on] and st["rv"]["k"] == "discr" and (st["rv"]["p"][-1] == ".kind" or
+                               (len(st["rv"]["p"]) == 1 and str(body.locals.get(str(st["rv"]["p"][0]), "")).endswith("RecordKind"))) for st in blk["stmts"]):
                         continue
                     n += 1
                     vals = {int(v): d for v, d in t["targets"]}
